@@ -115,7 +115,7 @@ PROPS["C03"] = {
 }
 
 PROPS["C01"] = {
-    "rules": ["R-PROBE-STOP", "R-CTRL-WRITE", "R-SLOT-PROVENANCE", "R-SLOT-FRESH", "R-BUCKET-FRESH", "R-ACCT", "R-RESERVE-GUARD", "R-REHASH-DECISION"],
+    "rules": ["R-PROBE-STOP", "R-CTRL-WRITE", "R-SLOT-PROVENANCE", "R-SLOT-FRESH", "R-BUCKET-FRESH", "R-KEEP-KEY", "R-HASH-SOURCE", "R-ACCT", "R-RESERVE-GUARD", "R-REHASH-DECISION"],
     "level": "other",
     "decided": "the mechanisms the property rests on are structurally intact on every path: lookups stop only at an EMPTY byte and all search loops agree (R-PROBE-STOP); control bytes are written only through mirror-maintaining primitives (R-CTRL-WRITE); "
                "every insert slot passes through the small-table fix-up (R-SLOT-PROVENANCE) and is consumed before any other mutation, buckets are not used across a rehash (R-SLOT-FRESH, R-BUCKET-FRESH); free-slot accounting (R-ACCT); growth decisions (R-RESERVE-GUARD, R-REHASH-DECISION)",
@@ -147,11 +147,11 @@ PROPS["C15"] = {
 }
 
 PROPS["C05"] = {
-    "rules": ["R-PROBE-STOP", "R-MANYMUT", "R-EQ-NOEFFECT", "R-SLOT-FRESH", "R-REHASH-LOOP", "R-ACCT", "R-ITEMS-GUARD"],
+    "rules": ["R-HASH-TAINT", "R-INDEX-BOUNDED", "R-PROBE-STOP", "R-MANYMUT", "R-EQ-NOEFFECT", "R-SLOT-FRESH", "R-REHASH-LOOP", "R-ACCT", "R-ITEMS-GUARD"],
     "level": "other",
-    "decided": "probe termination never depends on eq/hash answers, only on an EMPTY byte (R-PROBE-STOP) whose existence is the free-slot accounting (R-ACCT); aliasing in get_many_mut is decided by pointer identity, not by the user's eq (R-MANYMUT); "
+    "decided": "arbitrary (even non-deterministic) hash answers never reach an index unmasked and every index handed to a bucket/control accessor is bounded by construction, including the re-hash during growth and in-place rehash (R-HASH-TAINT, R-INDEX-BOUNDED); probe termination never depends on eq/hash answers, only on an EMPTY byte (R-PROBE-STOP) whose existence is the free-slot accounting (R-ACCT); aliasing in get_many_mut is decided by pointer identity, not by the user's eq (R-MANYMUT); "
                "no accounting store depends on an eq answer (R-EQ-NOEFFECT); a slot found before a rehash is never used after it (R-SLOT-FRESH); iteration is bounded by items (R-ITEMS-GUARD)",
-    "not_decided": "that len() equals the number of elements yielded under inconsistent hashes in rehash_in_place (loop logic over runtime control bytes); R-HASH-TAINT is added below when built",
+    "not_decided": "that len() equals the number of elements yielded under inconsistent hashes in rehash_in_place (loop logic over runtime control bytes)",
 }
 
 PROPS["C02"] = {
@@ -184,7 +184,7 @@ PROPS["C13"] = {
 }
 
 PROPS["C08"] = {
-    "rules": ["R-NOALLOC-REACH", "R-RESERVE-GUARD", "R-LAYOUT-SOURCE", "R-FIELD-IMMUT", "R-LINEAR-INNER", "R-ACCT", "R-WINDOW"],
+    "rules": ["R-NOALLOC-REACH", "R-RESERVE-GUARD", "R-LAYOUT-SOURCE", "R-SINGLETON-GUARD", "R-FIELD-IMMUT", "R-LINEAR-INNER", "R-ACCT", "R-WINDOW"],
     "level": "other",
     "decided": "new/default/with_capacity(0) cannot reach the allocator and clear/drain keep the allocation (R-NOALLOC-REACH); no allocation while additional <= growth_left, insert grows only when growth_left == 0 and the slot is EMPTY, capacity() = items + growth_left (R-RESERVE-GUARD); "
                "allocation_size() reports the size of the very layout the block was allocated with (R-LAYOUT-SOURCE, R-FIELD-IMMUT); shrink_to releases the old table on every path (R-LINEAR-INNER); clear recomputes growth_left from the bucket mask, replace_bucket_with restores it (R-ACCT); shrinking moves elements only through the guarded resize (R-WINDOW)",
@@ -192,7 +192,7 @@ PROPS["C08"] = {
 }
 
 PROPS["C14"] = {
-    "rules": ["R-RESERVE-FIRST", "R-ENTRY-NOEFFECT", "R-BUCKET-FRESH", "R-SLOT-FRESH", "R-RESERVE-GUARD", "R-ACCT", "R-WINDOW", "R-ERASE-BEFORE", "R-SIG-REGION", "R-MUT-FROM-MUT"],
+    "rules": ["R-RESERVE-FIRST", "R-ENTRY-NOEFFECT", "R-HASH-SOURCE", "R-BUCKET-FRESH", "R-SLOT-FRESH", "R-RESERVE-GUARD", "R-ACCT", "R-WINDOW", "R-ERASE-BEFORE", "R-SIG-REGION", "R-MUT-FROM-MUT"],
     "level": "other",
     "decided": "rustc_entry reserves before creating a Vacant entry and insert_no_grow is reachable only from it (R-RESERVE-FIRST, code the baseline never compiles); creating an entry reaches no table mutation (except reserve for HashTable::entry / rustc_entry), so an unused Vacant entry changes nothing (R-ENTRY-NOEFFECT); "
                "an Occupied entry never holds a bucket found before a rehash (R-BUCKET-FRESH); Vacant inserts go through RawTable::insert whose growth condition is intact (R-RESERVE-GUARD, R-SLOT-FRESH); replace_bucket_with removes before calling the closure and restores control byte and growth_left (R-ERASE-BEFORE, R-ACCT, R-WINDOW); entry types borrow the map exclusively (R-SIG-REGION, R-MUT-FROM-MUT)",
